@@ -54,6 +54,17 @@ func newC18Eth() *c18Eth {
 	return e
 }
 
+// names of the kinds of the second chain (builds and closes a chain)
+func newC18EthClosed() []string {
+	e := newC18Eth()
+	defer func() { defer func() { recover() }(); e.w.rep.Close() }()
+	out := []string{}
+	for _, k := range e.kinds() {
+		out = append(out, k.Name)
+	}
+	return out
+}
+
 func (e *c18Eth) kinds() []labKind {
 	w := e.w
 	u1, u2, wit := w.idKey[1], w.idKey[2], w.idKey[20]
